@@ -274,6 +274,9 @@ func runC06(c *Check, a *Analysis) {
 		c.Undecided("R-REPLY-UNTOUCHED", "no reply-decoding site found")
 	}
 
+	// a failed call must not poison later calls through a recycled flag object
+	ruleUpgradeOwner(c, a, "R-UPGRADE-OWNER")
+
 	// ---- R-NO-RESIDUE
 	c.Rule("R-NO-RESIDUE", "on the write-error edge of ClientCodec.WriteRequest the sender removes this call from Conn.pending (identity-tested) and, for a stream open, from Conn.streams; no other delete exists on that path", 2)
 	ls := a.Locks()
